@@ -203,3 +203,28 @@ def ghost_kwarg(fn, k, name):
 
 def ghost_arg(fn, k, i):
     return _calls(fn)[k]['args'][i]
+
+
+def possible(rng, thunk):
+    """some outcome of the generator's draws makes the condition true (native: re-run the real
+    function on fresh copies of the pre-state inputs for every outcome vector, bounded)"""
+    return ST.possible_hook(rng, thunk)
+
+
+def sample_objects():
+    from gym_gridverse import grid_object as go
+    flat = [go.NoneGridObject(), go.Hidden(), go.Floor(), go.Wall(), go.MovingObstacle()]
+    for c in go.Color:
+        flat += [go.Exit(c), go.Key(c), go.Telepod(c), go.Beacon(c)]
+        flat += [go.Door(s, c) for s in go.Door.Status]
+    boxes = [go.Box(o) for o in flat if not isinstance(o, (go.NoneGridObject, go.Hidden))]
+    return flat + boxes + [go.Box(b) for b in boxes[:8]]
+
+
+def forall_obj(fn):
+    """natively: over a finite sample of objects (all flat objects, boxes of them, some nested boxes)"""
+    return all(fn(o) for o in sample_objects())
+
+
+def contract_input(name, default):
+    return default
